@@ -55,21 +55,19 @@ Qed.
 Theorem decode_empty_default : forall S p fuel n fs kp ia r rcx x s',
   lookup S n = Some (DStruct fs kp ia) ->
   gen_decode S p fuel (TyRef n) (mkS (x00 :: r) rcx) = Ok (x, s') ->
-  default_of S (TyRef n) = Some x /\ s' = mkS r rcx.
+  default_of S (TyRef n) = Some x /\ s' = mkS r (clrp p rcx).
 Proof.
   intros S p fuel n fs kp ia r rcx x s' Hl Hd.
   pose proof (resolve_struct _ _ _ _ _ Hl) as Er.
   destruct fuel as [|f]; [discriminate|]. rewrite gen_decode_S, Er, Hl in Hd.
   rewrite frame_rbegin in Hd. cbn [bind dec_fields] in Hd.
-  destruct (proj2 (w_field_stop_ok p w0 eq_refl) r (rc1_ p rcx)) as (oid & Hs). rewrite Hs in Hd.
+  destruct (r_field_begin_stop p r (rc1_ p rcx)) as (oid & Hs). rewrite Hs in Hd.
   cbn [bind fst ttype_eqb] in Hd.
-  assert (Hstop : r_field_stop_len p (mkS r (rc1_ p rcx)) = Ok (1, mkS r (rc1_ p rcx)) \/
-                  exists st, r_field_stop_len p (mkS r (rc1_ p rcx)) = Panic st).
-  { unfold r_field_stop_len, r_assert_no_pending. destruct p; auto. destruct (r_pfield _); eauto. }
-  destruct Hstop as [E|[st E]]; rewrite E in Hd; cbn [bind] in Hd; [|discriminate].
-  pose proof (frame_rend p r (r_last (rc1_ p rcx)) rcx) as Hre.
-  replace (rlast_upd p (r_last (rc1_ p rcx)) (rc1_ p rcx)) with (rc1_ p rcx) in Hre
-    by (destruct p; cbn [rlast_upd]; auto; symmetry; apply rctx_eta).
+  assert (Hstop : r_field_stop_len p (mkS r (clrp p (rc1_ p rcx))) = Ok (1, mkS r (clrp p (rc1_ p rcx)))).
+  { unfold r_field_stop_len, r_assert_no_pending. destruct p; reflexivity. }
+  rewrite Hstop in Hd; cbn [bind] in Hd.
+  assert (Hre : r_struct_end p (mkS r (clrp p (rc1_ p rcx))) = Ok (tt, mkS r (clrp p rcx))).
+  { destruct p; reflexivity. }
   rewrite Hre in Hd. cbn [bind] in Hd.
   destruct (finish_fields fs (map init_var fs)) as [out| |] eqn:Ef; cbn [bind] in Hd; try discriminate.
   injection Hd as <- <-. split; [|reflexivity].
@@ -93,7 +91,7 @@ Proof.
   intros S p f n fs kp ia r rcx out Hl Hi Hf.
   pose proof (resolve_struct _ _ _ _ _ Hl) as Er.
   rewrite gen_decode_S, Er, Hl. rewrite frame_rbegin. cbn [bind dec_fields].
-  destruct (proj2 (w_field_stop_ok p w0 eq_refl) r (rc1_ p rcx)) as (oid & Hs). rewrite Hs.
+  destruct (proj2 (w_field_stop_ok p w0 eq_refl) r (rc1_ p rcx) (proj2 (rc1_idle p _ Hi))) as (oid & Hs). rewrite Hs.
   cbn [bind fst ttype_eqb].
   rewrite r_field_stop_len_idle by (apply rc1_idle; exact Hi). cbn [bind].
   pose proof (frame_rend p r (r_last (rc1_ p rcx)) rcx) as Hre.
